@@ -78,7 +78,7 @@ def fp_artist(a):
             out.append(fp(np.asarray(a.get_xydata())))
         if hasattr(a, 'get_position'):
             out.append(repr(tuple(float(x) for x in a.get_position())))
-        for g in ('get_edgecolor', 'get_linewidth', 'get_color', 'get_text'):
+        for g in ('get_edgecolor', 'get_linewidth', 'get_color', 'get_text', 'get_alpha', 'get_zorder', 'get_markeredgecolor', 'get_fill'):
             if hasattr(a, g):
                 out.append((g, repr(getattr(a, g)())))
     except Exception as ex:  # noqa
@@ -200,6 +200,13 @@ class Pool:
         members = [rnd.choice(pixmakers)() for _ in range(rnd.randint(1, 3))] + [rnd.choice(skymakers + skyann)() for _ in range(rnd.randint(0, 2))]
         if rnd.random() < 0.5:
             members = [m for m in members if isinstance(m, R.PixelRegion)] or [pixmakers[0]()]
+        # regions as a DS9 file without any property gives them (style 'ds9', nothing else in visual), and a text region built by hand with
+        # empty visual: the defaults they are drawn / written with belong to nobody
+        import warnings
+        with warnings.catch_warnings():
+            warnings.simplefilter('ignore')
+            members += list(R.Regions.parse('image\ncircle(10,12,3)\npoint(4,5)\nline(1,2,8,9)\ntext(6,7) # text={t}\n', format='ds9'))[:rnd.randint(2, 4)]
+        members.append(R.TextPixelRegion(PixCoord(7.0, 8.0), 'plain', meta=RegionMeta({'label': 'lbl'})))
         rnd.shuffle(members)
         self.objs['lst'] = R.Regions(members)
         # argument objects the caller keeps and passes again: they are inputs too
@@ -311,6 +318,9 @@ class Pool:
             return each(lambda r: [r & (self.other_pix if ispix(r) else self.other_sky), r | (self.other_pix if ispix(r) else self.other_sky),
                                    r ^ (self.other_pix if ispix(r) else self.other_sky)])
         if op == 'as_artist':
+            if k == 1:
+                # with keywords of the caller's own: they belong to this call only
+                return each(lambda r: (r if ispix(r) else r.to_pixel(self.wcs)).as_artist(origin=(1, 2), alpha=0.25, zorder=9))
             return each(lambda r: (r if ispix(r) else r.to_pixel(self.wcs)).as_artist(origin=(1, 2)))
         if op.startswith('serialize_'):
             fmt = op.split('_')[1]
